@@ -101,6 +101,20 @@ def keyVerdict (u : Uni) (k : Key) (md : Modes) (seqs : List PSeq) (dkTok : Stri
      else "FAIL [release forwarded] a key release was written to the child, which reads it as the key pressed again")
   else
   let xm := xtermMods k
+  -- keypad keys: the child's keypad mode selects the encoding (F413)
+  let keypad : Option String :=
+    match keypadDue k.keycode md.deckpam md.decckm with
+    | some want =>
+      if xm = 0 ∧ k.text = [] then
+        (match sepInts? "." outTok with
+         | some out => if out = want then some "ok"
+             else some s!"FAIL [keypad] keypad key {k.keycode} (DECKPAM={md.deckpam}): the child must receive {showStr want}, got {showStr out}"
+         | none => none)
+      else none
+    | none => none
+  match keypad with
+  | some v => v
+  | none =>
   -- cursor-key mode selects the encoding
   let cursor : Option String :=
     match lookup k.keycode cursorKeys with
